@@ -5,13 +5,6 @@ From Coq Require Import ZArith List Lia.
 From Verif Require Import Fault.Fault.
 Import ListNotations.
 
-Local Ltac des_run E :=
-  match goal with
-  | |- context [run ?p ?s ?n ?f] =>
-    let r := fresh "r" in let s1 := fresh "s1" in let n1 := fresh "n1" in
-    destruct (run p s n f) as [[r s1] n1] eqn:E
-  end.
-
 (** The call counter never decreases. *)
 Lemma run_counter_mono : forall A (p : prog A) s n f, n <= snd (run p s n f).
 Proof.
